@@ -410,8 +410,43 @@ def install(fault=None):
     real_tg_update, real_tg_stop = TG.update, TG.stop
     real_tg_start, real_tg_reset = TG.start, TG.reset
 
+    gen_delay = float(os.environ.get('VERIF_GEN_DELAY_MS', '0')) / 1000.0
+
+    class SlowMutator:
+        """Schedule perturbation: the generator of a parallel ddmin round
+        (run by the pool's task-handler thread) is slow between its test of
+        `stopped` and its read of the current input - the window between the
+        model's GenBegin and GenEnd.  Behaviour is otherwise that of the
+        wrapped mutator (same attributes, same str())."""
+
+        def __init__(self, real):
+            object.__setattr__(self, '_real', real)
+
+        def __getattr__(self, name):
+            v = getattr(object.__getattribute__(self, '_real'), name)
+            if name == 'filter' and threading.current_thread(
+            ) is not threading.main_thread():
+                def slow_filter(node, v=v):
+                    r = v(node)
+                    time.sleep(gen_delay)
+                    return r
+                return slow_filter
+            return v
+
+        def __setattr__(self, name, value):
+            setattr(object.__getattribute__(self, '_real'), name, value)
+
+        def __str__(self):
+            return str(object.__getattribute__(self, '_real'))
+
+        def __repr__(self):
+            return repr(object.__getattribute__(self, '_real'))
+
     def tg_init(self, exprs, gran, mutator, max_depth=None):
         real_tg_init(self, exprs, gran, mutator, max_depth)
+        if gen_delay and self.pickled_exprs is not None and hasattr(
+                mutator, 'filter'):
+            self.mutator = SlowMutator(mutator)
         emit('round', mut=type(mutator).__name__, gran=self.gran,
              nsubsets=len(self.subsets), nfiltered=self.num_filtered,
              par=self.pickled_exprs is not None, base=toks(exprs),
